@@ -10,6 +10,7 @@ type StackN<const N: usize, const S: usize> = any_vec::mem::StackN<N, S>;
 
 #[cfg(feature = "lib_alloc")]
 anyvec_pbt::configs! {
+    Pl8a2_Multi:  Pl8a2,  Multi, dyn Cloneable, G_LAYOUT;
     Cc8_Multi:    Cc8,    Multi, dyn Cloneable, G_LAYOUT;
     Tr64_GuardA:   Tr64,   GuardB,          dyn Cloneable, G_ALIGN;
     Tr160_StackA:  Tr160,  Stack<320>,      dyn Cloneable, G_ALIGN;
